@@ -127,7 +127,7 @@ func DrawSpec(t *rapid.T, o SpecOpts) *SpecM {
 	return g.bodySpec(o.Depth, 0, o.NoDynamic)
 }
 
-var specAttrTypes = []cty.Type{cty.String, cty.Number, cty.Bool, cty.List(cty.String), cty.Map(cty.Number), cty.DynamicPseudoType, cty.Set(cty.String)}
+var specAttrTypes = []cty.Type{cty.String, cty.Number, cty.Bool, cty.List(cty.String), cty.Map(cty.Number), cty.DynamicPseudoType, cty.Set(cty.String), cty.String, cty.Number, cty.Map(cty.Map(cty.Number)), cty.List(cty.Map(cty.Number)), cty.Map(cty.List(cty.String))}
 
 func (g *specGen) attrType(noDyn bool) cty.Type {
 	for {
@@ -259,7 +259,7 @@ func (g *specGen) bodySpec(depth int, nlabels int, noDyn bool) *SpecM {
 				s.Required = rapid.IntRange(0, 3).Draw(t, "required") == 0
 				return s
 			case SBlockMap, SBlockObject:
-				nl := rapid.SampledFrom([]int{1, 1, 1, 2, 2, 3}).Draw(t, "nmaplabels")
+				nl := rapid.SampledFrom([]int{1, 1, 2, 2, 3, 3}).Draw(t, "nmaplabels")
 				for i := 0; i < nl; i++ {
 					s.LabelNames = append(s.LabelNames, fmt.Sprintf("key%d", i))
 				}
@@ -436,7 +436,13 @@ func BodyFromSpec(t *rapid.T, s *SpecM, o BodyFromSpecOpts) *ast.Body {
 						bl.Labels = append(bl.Labels, prevLabels[j])
 						continue
 					}
-					txt := cty.StringVal(rapid.SampledFrom(o.Labels).Draw(t, "label")).AsString()
+					pool := o.Labels
+					if nl >= 3 && len(pool) > 3 {
+						// deep label paths: a small alphabet makes blocks agree on some levels and
+						// differ on others in every combination
+						pool = pool[:3]
+					}
+					txt := cty.StringVal(rapid.SampledFrom(pool).Draw(t, "label")).AsString()
 					bl.Labels = append(bl.Labels, ast.Label{Text: txt, Bare: isIdent(txt) && rapid.Bool().Draw(t, "bare")})
 				}
 				if o.Perturb == 0 && (x.Kind == SBlockMap || x.Kind == SBlockObject) && len(bl.Labels) > 0 {
